@@ -137,6 +137,9 @@ impl Model {
                 self.cov.c01_value_checks += 1;
                 if Some(s) != cached {
                     viol!(self, at, "C01", "stale-value", "observed node {} ({}) holds {:?} after stabilise but evaluating its definition from scratch gives {:?}", h, crate::model_step::kind_name(&self.nodes[h].rk), cached, s);
+                    // the same mismatch, read as C07: this observer does not reflect the variable
+                    // assignment the others reflect
+                    viol!(self, at, "C07", "observers-not-one-assignment", "observed node {} ({}) shows {:?} at the end of the stabilise; under the variable assignment current when stabilise was called its value is {:?}", h, crate::model_step::kind_name(&self.nodes[h].rk), cached, s);
                 }
             }
         }
